@@ -39,16 +39,16 @@ def one(src, rid, props, tests):
                 VERIF, "tools", "baseline.py"), tmp], capture_output=True,
                 text=True)
             res["tests"] = "ok" if t.returncode == 0 else t.stdout[-300:]
-        for p in props:
-            r = subprocess.run([PY, "-m", "sa.check", p, "--root", tmp,
-                                "--evidence-dir", os.path.join(tmp, "ev")],
-                               cwd=VERIF, capture_output=True, text=True)
-            if r.returncode != 0:
-                lines = [l for l in r.stdout.splitlines()
-                         if ("ANALYSIS" in l or " R" in l[:70]) and
-                         "VIOLATION" not in l and "KNOWN" not in l
-                         and not l.startswith("[")]
-                res[p] = (r.returncode, [l[:260] for l in lines[:3]])
+        r = subprocess.run([PY, os.path.join(VERIF, "tools",
+                                             "check_many.py"), tmp] + props,
+                           cwd=VERIF, capture_output=True, text=True)
+        try:
+            allres = json.loads(r.stdout.strip().splitlines()[-1])
+        except Exception:
+            allres = {p: (2, [r.stderr[-200:]]) for p in props}
+        for p, (rc, lines) in allres.items():
+            if rc != 0:
+                res[p] = (rc, lines)
         return rid, res
     finally:
         shutil.rmtree(tmp, ignore_errors=True)
